@@ -538,7 +538,7 @@ Section Refinement.
     exists b', step b o = (b', snd (spec_step s o)) /\ repr b' (fst (spec_step s o)).
   Proof.
     intros Hr Hok. pose proof (repr_c_str _ _ Hr) as Hc.
-    destruct o as [v|v|v|n|v|v|v|v| | | |pos ps| | | | | | ]; cbn [m_step spec_step fst snd op_ok] in *.
+    destruct o as [v|v|v|n|v|v|v|v| | | |pos ps| | | | | | | ]; cbn [m_step spec_step fst snd op_ok] in *.
     - destruct (assign_refines b v Hok) as [b' [E R]]. rewrite E. exists b'. split; [reflexivity|exact R].
     - destruct (concat_refines b s v Hr Hok) as [b' [E R]]. rewrite E. exists b'. split; [reflexivity|exact R].
     - destruct (concat_refines b s v Hr Hok) as [b' [E R]]. rewrite E. exists b'. split; [reflexivity|exact R].
@@ -572,6 +572,8 @@ Section Refinement.
       replace (str_compare s s) with Eq by (symmetry; apply str_compare_eq; reflexivity). reflexivity.
     - exists b. unfold obs. rewrite Hc. split; [|exact Hr]. cbn [fst snd].
       replace (str_compare s s) with Eq by (symmetry; apply str_compare_eq; reflexivity). reflexivity.
+    - rewrite Hc. destruct (assign_refines [] s (proj1 Hr)) as [b' [E R]]. rewrite E.
+      exists b'. split; [reflexivity|exact R].
   Qed.
 
   Lemma spec_step_no_crash s o : snd (spec_step s o) <> SCrash.
@@ -705,6 +707,17 @@ Theorem c_history_no_crash v0 ops : nulfree v0 -> Forall op_ok ops ->
 Proof.
   intros Hv Hok. destruct (new_refines _ gen_assign v0 Hv) as [b0 [E R]]. exists b0. split; [exact E|].
   exact (run_no_crash _ _ _ _ _ _ _ _ gen_assign gen_concat gen_resize gen_format gen_rem gen_chk gen_asafe gen_csafe ops b0 v0 R Hok).
+Qed.
+
+Lemma new_empty_repr : repr m_new_empty [].
+Proof. split; [constructor|exists []; reflexivity]. Qed.
+
+Theorem c_history_refines_from_empty ops : Forall op_ok ops ->
+  exists bf, c_run m_new_empty ops = (fst (spec_run [] ops), bf) /\ repr bf (snd (spec_run [] ops)).
+Proof.
+  intros Hok.
+  exact (run_refines _ _ _ _ _ _ _ _ gen_assign gen_concat gen_resize gen_format gen_rem gen_chk gen_asafe gen_csafe
+           ops m_new_empty [] new_empty_repr Hok).
 Qed.
 
 Theorem repr_iff_c_str b s : repr b s <-> c_str b = Some s.
